@@ -3,19 +3,21 @@
 // Input  : (hosts classes tree)
 //
 //	hosts   := ((hostname (begin end)*)*)                   one Mesos offer per host: its port ranges
-//	classes := ((cname mode (bind*) (connect*))*)           task templates; mode = fairmq | direct
+//	classes := ((cname mode (bind*) (connect*) [props])*)   task templates; mode = fairmq | direct
+//	props   := ((key value)*)                               the template's `properties:` block (optional 5th element)
 //	tree    := (A name (bind*) (connect*) tree*)            aggregator role
 //	         | (T name cname hostIdx (bind*) (connect*))    task role, launched on hosts[hostIdx]
-//	bind    := (name transport addressing target global)    "" = field absent in the YAML
-//	connect := (name transport target)
+//	bind    := (name transport addressing target global [misc])   "" = field absent in the YAML
+//	connect := (name transport target [misc])
+//	misc    := (type sndBufSize rcvBufSize rateLogging)     optional; "" = absent (type: push for bind, pull for connect)
 //
 // Obs    : (launch configure)
 //
 //	launch    := ((path host ((key endpoint)*) ((begin end)*))*)   per task in tree order: role path, host,
 //	             the task's local bind map sorted by key, the port ranges in the Mesos TaskInfo (what ACCEPT carries)
 //	endpoint  := (tcp host port transport) | (ipc path transport)    fresh IPC paths renamed @o2ipc-%N by first appearance
-//	configure := (ok ((chan method address transport)*)*)          per task: chans.<chan>.0.{method,address,transport} of
-//	             the CONFIGURE command the executor would receive, sorted by channel name
+//	configure := (ok ((key value)*)*)                              per task: the WHOLE `arguments` map of the CONFIGURE
+//	             command the executor would receive, sorted by key (the value of environment_id renamed %env)
 //	           | (err alias_conflict) | (err unmatched) | (err other)
 //
 // What runs: the role tree and the classes are unmarshalled from generated YAML with the repo's own
@@ -67,7 +69,8 @@ func bindYAML(b *strings.Builder, ind string, list *sx.Node) {
 	}
 	fmt.Fprintf(b, "%sbind:\n", ind)
 	for _, c := range list.List {
-		fmt.Fprintf(b, "%s  - name: %s\n%s    type: push\n", ind, q(c.At(0).Str()), ind)
+		fmt.Fprintf(b, "%s  - name: %s\n", ind, q(c.At(0).Str()))
+		miscYAML(b, ind, c.At(5), "push")
 		if v := c.At(1).Str(); v != "" {
 			fmt.Fprintf(b, "%s    transport: %s\n", ind, q(v))
 		}
@@ -83,13 +86,29 @@ func bindYAML(b *strings.Builder, ind string, list *sx.Node) {
 	}
 }
 
+// miscYAML: type (the direction's usual one unless the optional misc element names another) and
+// the three fields of channel.Channel that only end up in the FairMQ keys.
+func miscYAML(b *strings.Builder, ind string, m *sx.Node, dirType string) {
+	ty := dirType
+	if v := m.At(0).Str(); v != "" {
+		ty = v
+	}
+	fmt.Fprintf(b, "%s    type: %s\n", ind, ty)
+	for i, f := range []string{"sndBufSize", "rcvBufSize", "rateLogging"} {
+		if v := m.At(i + 1).Str(); v != "" {
+			fmt.Fprintf(b, "%s    %s: %s\n", ind, f, q(v))
+		}
+	}
+}
+
 func connectYAML(b *strings.Builder, ind string, list *sx.Node) {
 	if list.Len() == 0 {
 		return
 	}
 	fmt.Fprintf(b, "%sconnect:\n", ind)
 	for _, c := range list.List {
-		fmt.Fprintf(b, "%s  - name: %s\n%s    type: pull\n", ind, q(c.At(0).Str()), ind)
+		fmt.Fprintf(b, "%s  - name: %s\n", ind, q(c.At(0).Str()))
+		miscYAML(b, ind, c.At(3), "pull")
 		if v := c.At(1).Str(); v != "" {
 			fmt.Fprintf(b, "%s    transport: %s\n", ind, q(v))
 		}
@@ -129,6 +148,12 @@ func classYAML(c *sx.Node) string {
 		q(c.At(0).Str()), c.At(1).Str())
 	bindYAML(&b, "", c.At(2))
 	connectYAML(&b, "", c.At(3))
+	if c.At(4).Len() > 0 {
+		b.WriteString("properties:\n")
+		for _, kv := range c.At(4).List {
+			fmt.Fprintf(&b, "  %s: %s\n", q(kv.At(0).Str()), q(kv.At(1).Str()))
+		}
+	}
 	return b.String()
 }
 
@@ -343,21 +368,18 @@ func runLoaded(m *task.Manager, cap *captured, root workflow.Role, envId uid.ID,
 		per := sx.L()
 		for _, t := range tasks {
 			args := cap.args[t.GetTaskId()]
-			names := map[string]bool{}
+			keys := make([]string, 0, len(args))
 			for k := range args {
-				if strings.HasPrefix(k, "chans.") && strings.HasSuffix(k, ".0.address") {
-					names[strings.TrimSuffix(strings.TrimPrefix(k, "chans."), ".0.address")] = true
-				}
+				keys = append(keys, k)
 			}
-			var ns []string
-			for n := range names {
-				ns = append(ns, n)
-			}
-			sort.Strings(ns)
+			sort.Strings(keys)
 			tl := sx.L()
-			for _, n := range ns {
-				p := "chans." + n + ".0."
-				tl.Add(sx.L(sx.A(n), sx.A(args[p+"method"]), sx.A(args[p+"address"]), sx.A(args[p+"transport"])))
+			for _, k := range keys {
+				v := args[k]
+				if k == "environment_id" && v == envId.String() {
+					v = "%env"
+				}
+				tl.Add(sx.L(sx.A(k), sx.A(v)))
 			}
 			per.Add(tl)
 		}
@@ -385,8 +407,14 @@ func runLoaded(m *task.Manager, cap *captured, root workflow.Role, envId uid.ID,
 
 // ---- generator -----------------------------------------------------------------------
 
-type chIn struct{ name, transport, addressing, target, global string }
-type chOut struct{ name, transport, target string }
+type chIn struct {
+	name, transport, addressing, target, global string
+	misc                                        *chMisc
+}
+type chOut struct {
+	name, transport, target string
+	misc                    *chMisc
+}
 
 type role struct {
 	agg   bool
@@ -404,6 +432,19 @@ type class struct {
 	name, mode string
 	bind       []chIn
 	conn       []chOut
+	props      [][2]string // the template's `properties:` block (props.go)
+}
+
+func (c *class) sx() *sx.Node {
+	n := sx.L(sx.A(c.name), sx.A(c.mode), insSx(c.bind), outsSx(c.conn))
+	if len(c.props) > 0 {
+		pl := sx.L()
+		for _, kv := range c.props {
+			pl.Add(sx.L(sx.A(kv[0]), sx.A(kv[1])))
+		}
+		n.Add(pl)
+	}
+	return n
 }
 
 // inbound and outbound channels draw their names from disjoint pools and every
@@ -415,9 +456,19 @@ var outNames = []string{"in", "feed", "dpl", "src", "aux"}
 var transports = []string{"", "default", "zeromq", "nanomsg", "shmem", "zeromq", "shmem"}
 
 func inSx(c chIn) *sx.Node {
-	return sx.L(sx.A(c.name), sx.A(c.transport), sx.A(c.addressing), sx.A(c.target), sx.A(c.global))
+	n := sx.L(sx.A(c.name), sx.A(c.transport), sx.A(c.addressing), sx.A(c.target), sx.A(c.global))
+	if c.misc != nil {
+		n.Add(c.misc.sx())
+	}
+	return n
 }
-func outSx(c chOut) *sx.Node { return sx.L(sx.A(c.name), sx.A(c.transport), sx.A(c.target)) }
+func outSx(c chOut) *sx.Node {
+	n := sx.L(sx.A(c.name), sx.A(c.transport), sx.A(c.target))
+	if c.misc != nil {
+		n.Add(c.misc.sx())
+	}
+	return n
+}
 func insSx(cs []chIn) *sx.Node {
 	n := sx.L()
 	for _, c := range cs {
@@ -675,11 +726,19 @@ func genCase(r *rng.R, maxTasks int) fw.Case {
 		}
 	}
 
+	// the rest of the property map: `properties:` blocks of the task templates (keys that collide with
+	// generated channel keys and keys that do not) and the channel fields that only end up in FairMQ keys
+	var roles []*role
+	roles = append(roles, aggs...)
+	roles = append(roles, tasks...)
+	ptags := decorate(r.Fork(), classes, roles)
+
 	cl := sx.L()
 	for _, c := range classes {
-		cl.Add(sx.L(sx.A(c.name), sx.A(c.mode), insSx(c.bind), outsSx(c.conn)))
+		cl.Add(c.sx())
 	}
 	tags := []string{fmt.Sprintf("tasks=%d", len(tasks)), fmt.Sprintf("hosts=%d", nHosts)}
+	tags = append(tags, ptags...)
 	for k, v := range map[string]bool{"inbound-target": st.inboundTarget, "alias-declared": st.aliasUse,
 		"explicit-outbound": st.explicitOut, "bad-outbound-target": st.badOut, "alias-outbound": st.aliasOut} {
 		if v {
@@ -730,6 +789,9 @@ func nontrivial(input, obs string) bool {
 	connects, binds := 0, 0
 	for _, t := range cfg.At(1).List {
 		for _, e := range t.List {
+			if !strings.HasSuffix(e.At(0).Str(), ".0.method") {
+				continue
+			}
 			if e.At(1).Str() == "connect" {
 				connects++
 			} else {
@@ -790,6 +852,7 @@ func shrinkCands(input string) []string {
 			}
 		}
 	}
+	out = append(out, shrinkPropsAndMisc(in)...)
 	return out
 }
 
@@ -804,7 +867,11 @@ func init() {
 			"declarations, bind/connect declarations at aggregator and task-role level overriding the template's, all four transports or none, " +
 			"tcp/ipc/absent addressing, global aliases (shared templates make them collide), inbound channels with static/invalid targets, outbound " +
 			"targets = advertised path:channel 70% / alias 10% / explicit tcp:// ipc:// 12% / near-miss, unknown or empty 8%, template-level connect " +
-			"left without a role-level target 5%; every case runs the real YAML loaders, GenerateTaskDescriptors, makeTaskForMesosResources and " +
+			"left without a role-level target 5%; the rest of the property map: 30% of the task templates carry a `properties:` block of 1..4 keys — " +
+			"keys of a declared channel of the template or of a role (chans.<n>.0.address / transport / method / type / rateLogging / sndBufSize / " +
+			"rcvBufSize / rcvKernelSize / sndKernelSize / autoBind, chans.<n>.numSockets; tags props:collide-*), keys of no channel of the task " +
+			"(plain keys, environment_id, chans.<undeclared>.0.address; tag props:free), 8% of the channel declarations set type / sndBufSize / " +
+			"rcvBufSize / rateLogging (tag misc); every case runs the real YAML loaders, GenerateTaskDescriptors, makeTaskForMesosResources and " +
 			"configureTasks; non-trivial = >=2 tasks launched and (configuration sent with >=1 bind and >=1 connect entry, or rejected as " +
 			"unmatched / alias conflict); distinct by input text. " +
 			"Template form (tag tmpl, 12 fixed scenarios + 1500 generated, thorough 20000): workflow TEMPLATES with iterator roles " +
@@ -821,7 +888,8 @@ func init() {
 		TrustedBase: []string{
 			"harness/props/c13 (YAML rendering of roles/classes, mesos.Offer construction, JSON capture of the CONFIGURE command, IPC path renaming)",
 			"core/task/verif_hook_c13.go, core/workflow/verif_hook_c13.go (wiring only: Manager without Mesos, access to makeTaskForMesosResources/configureTasks/setParent)",
-			"Driver/C13 parsing incl. YAML defaulting of absent transport/addressing, launch monitor",
+			"Driver/C13 parsing incl. YAML defaulting of absent transport/addressing/type/buffer sizes/rateLogging, launch monitor, " +
+				"property keys text <-> structured (chans.<n>.0.<field> | chans.<n>.numSockets | verbatim; a key is read as a channel key only if rendering it gives the text back)",
 			"template form: rendering of expression segments to {{ … }} text, placement convention (j-th generated task role on host (base+j) mod #hosts), " +
 				"the template engine (fasttemplate + expr) as evaluator of the five expression forms; viper switches set under a process-wide lock",
 		},
@@ -830,6 +898,8 @@ func init() {
 				"Parent()/This() name/path accessors, every variable used is bound by an enclosing iterator, no `enabled:`/vars/defaults blocks",
 			"the tasks handed to configureTasks are the environment's task roles in tree order, each launched once",
 			"task classes are FAIRMQ or DIRECT (BASIC tasks receive no channel configuration)",
+			"property values are plain text (no {{ }} expressions, no __ptree__: prefix), the variable pdp_override_run_start_time is not set: " +
+				"the template pass over the property map and the orbit-reset-time push are not exercised here",
 		},
 	})
 }
